@@ -1,4 +1,5 @@
 (* C12 — flushed data survives truncation; truncated output is never misread. *)
+From V Require Import Flate.Spec XFlate.Reader XFlate.RoundTripStmt XFlate.RoundTripAll XFlate.FlushPoints.
 From V Require Import XFlate.Index XFlate.Writer XFlate.Mono.
 From V Require Import Base.Prelude Base.Prog Base.ProgThms Flate.Spec Flate.Thms Bzip2.Common Bzip2.SpecR Bzip2.SpecW Bzip2.Thms XFlate.Witness.
 
@@ -47,3 +48,45 @@ Theorem xflate_output_at_any_moment_is_a_cut_of_the_final_output : forall deflat
     w_sink (snd (wrun deflate s (ops1 ++ ops2))) = w_sink (snd (wrun deflate s ops1)) ++ extra.
 Proof. exact sink_at_any_moment_is_a_cut. Qed.
 Print Assumptions xflate_output_at_any_moment_is_a_cut_of_the_final_output.
+
+(* THE PROPERTY, for every history (under contract K1 on the compressor).
+   TRUNCATED OUTPUT IS NEVER MISREAD: every proper cut of the bytes a successfully closed Writer
+   produced - any configuration, any Write / Flush schedule - makes the DEFLATE decoder model end
+   in UnexpectedEOF having delivered a prefix of the data written: never success, never a
+   wrong byte *)
+Theorem xflate_cut_never_misread : forall deflate, K1 deflate ->
+  forall lvl chunk idx s0 ops obs s,
+    new_writer lvl chunk idx = inr s0 ->
+    wrun deflate s0 (ops ++ [WClose]) = (obs, s) ->
+    Forall (fun ob => snd ob = None \/ snd ob = Some EInvalid) obs ->
+    snd (last obs (0, None)) = None ->
+    (forall b, In b (wops_data ops) -> b < 256) ->
+    forall k, (k < length (w_sink s))%nat ->
+      ir_err (inflate (firstn k (w_sink s))) = Some EUEOF /\
+      prefix_of (ir_out (inflate (firstn k (w_sink s)))) (wops_data ops).
+Proof. exact cut_never_misread. Qed.
+Print Assumptions xflate_cut_never_misread.
+
+(* FLUSHED DATA SURVIVES TRUNCATION: right after a Flush (any of the three modes) that reported
+   success, with p bytes handed out, (a) those p bytes decode to EXACTLY the data written before
+   the Flush (then UnexpectedEOF, all p bytes consumed), (b) followed by anything they still
+   deliver at least that data, (c) whatever is called afterwards - failing calls included - the
+   first p bytes never change and every cut at or behind p delivers at least that data *)
+Theorem xflate_flushed_data_survives_truncation : forall deflate, K1 deflate ->
+  forall lvl chunk idx s0 ops1 m obs1 s1,
+    new_writer lvl chunk idx = inr s0 ->
+    wrun deflate s0 (ops1 ++ [WFlush m]) = (obs1, s1) ->
+    Forall (fun ob => snd ob = None \/ snd ob = Some EInvalid) obs1 ->
+    snd (last obs1 (0, None)) = None ->
+    (forall b, In b (wops_data ops1) -> b < 256) ->
+    let p := length (w_sink s1) in
+    inflate (w_sink s1) = mkIR (Some EUEOF) (wops_data ops1) (N.of_nat p) /\
+    (forall t, prefix_of (wops_data ops1) (ir_out (inflate (w_sink s1 ++ t)))) /\
+    (forall ops2,
+       let s2 := snd (wrun deflate s0 (ops1 ++ [WFlush m] ++ ops2)) in
+       firstn p (w_sink s2) = w_sink s1 /\
+       inflate (firstn p (w_sink s2)) = mkIR (Some EUEOF) (wops_data ops1) (N.of_nat p) /\
+       forall k, (p <= k)%nat ->
+         prefix_of (wops_data ops1) (ir_out (inflate (firstn k (w_sink s2))))).
+Proof. exact flush_point_recoverable. Qed.
+Print Assumptions xflate_flushed_data_survives_truncation.
